@@ -194,12 +194,13 @@ def leaf_class(l, inopt):
     return _leaf_cls[key]
 
 
-def oracle_answer(l, inopt, tree):
+def oracle_answer(l, inopt, tree, mod=None):
     from dataclass_wizard import fromdict
     from dataclass_wizard.errors import ParseError
     m = leaf_class(l, inopt)
     try:
-        v = build(tree, m)
+        # values may contain instances of the model's own NamedTuple / dataclass types
+        v = build(tree, mod if mod is not None else m)
     except BaseException as e:  # noqa
         return {'err': 'HarnessBuild' + type(e).__name__}
     try:
@@ -316,7 +317,7 @@ def do_model(model):
         res['docs'].append(run(fromdict, root, d))
         G.walk_class(model.get('root', 0), tree, model, pairs)
     for l, o, v in pairs.values():
-        res['oracle'].append([l, o, v, oracle_answer(l, o, v)])
+        res['oracle'].append([l, o, v, oracle_answer(l, o, v, mod)])
     del model['_keys']
     return res
 
